@@ -31,6 +31,14 @@ def run(ctx, ss):
     for r, f in (("C07.1", c07_1), ("C07.2", c07_2), ("C07.4", c07_4), ("C07.5", c07_5),
                  ("C07.6", c07_6), ("C07.7", c07_7), ("C07.8", c07_8)):
         ctx.guard(r, f, ss)
+    # C07.9 'statements anywhere in the text are each reflected': the text is assembled completely from the files given
+    # (C02.6-C02.8) and nothing on the reading path remembers an earlier input (shared.py)
+    from .c02 import p6, p7, p8
+    from .c05 import _as
+    for f_ in (p6, p7, p8):
+        ctx.guard("C07.9", lambda c, s, f_=f_: _as(c, s, f_, "C07.9"), ss)
+    from .shared import reading_path
+    ctx.guard("C07.9", reading_path, ss, "C07.9", [f"DecFileParser.{m}" for m in WRAPPERS], "a global declaration")
 
 
 def _find_data_literals(node):
